@@ -11,15 +11,15 @@ package reconciledloader
 //@ pred good(it remoteItem) := len(it.block) == 0 || isSumOf(it.link, it.block)
 //@ pred allGood() := forall n *remotedLinkedItem :: n != nil ==> good(n.remoteItem)
 //@ -- pool hygiene: an item handed to the pool, or kept only for a retry, holds no block bytes
-//@ pred clean(x *remotedLinkedItem) := x != nil && len(x.block) == 0
-//@ pred qinv(rq *remoteQueue) := rq.lastConsumed != nil ==> clean(rq.lastConsumed)
+//@ pred itemClean(x *remotedLinkedItem) := x != nil && len(x.block) == 0
+//@ pred qinv(rq *remoteQueue) := rq.lastConsumed != nil ==> itemClean(rq.lastConsumed)
 
 //@ -- sync.Pool, specialised to linkedRemoteItemPool (the only pool of this package): what comes out is what New made or
 //@ -- what some Put put in; every Put of the package is required to put in a clean item (obligation at each call site)
 //@ func std:sync.Pool.Get
 //@   assumed
 //@   modifies alloc
-//@   ensures result != nil && dyntype(result) == typetag("*remotedLinkedItem") && clean(result)
+//@   ensures result != nil && dyntype(result) == typetag("*remotedLinkedItem") && itemClean(result)
 //@   -- UNCHECKED ASSUMPTION (pool discipline): what the pool hands out is not at the same time held by a queue. The
 //@   -- package keeps it except after retryLast + consume (the retried item is given to the pool and kept as lastConsumed);
 //@   -- deciding that needs an ownership model of the linked list, see /verif/DESIGN.md 8.7
@@ -27,13 +27,13 @@ package reconciledloader
 //@ func std:sync.Pool.Put
 //@   assumed
 //@   params x
-//@   requires dyntype(x) == typetag("*remotedLinkedItem") && clean(x)
+//@   requires dyntype(x) == typetag("*remotedLinkedItem") && itemClean(x)
 //@   modifies nothing
 
 //@ func newRemote
 //@   requires allGood()
 //@   modifies alloc, remotedLinkedItem.next
-//@   ensures result != nil && clean(result) && result.next == nil && allGood()
+//@   ensures result != nil && itemClean(result) && result.next == nil && allGood()
 //@   ensures forall r *ReconciledLoader :: r != nil ==> result != r.remoteQueue.lastConsumed && result != r.remoteQueue.head && result != r.remoteQueue.tail
 
 //@ func freeList
